@@ -69,7 +69,7 @@ def run(module, cfg=None, workers=None, timeout=600, extra=(), env=None, deadloc
     meta = os.path.join(work, 'meta_%s_%d' % (name or module, int(time.time() * 1000) % 10 ** 9))
     os.makedirs(meta, exist_ok=True)
     # (the heap is capped: several TLC processes run side by side, and by default each may grow to a quarter of the machine's memory)
-    cmd = ['java', '-XX:+UseParallelGC', '-Xss16m', '-Xmx%s' % (os.environ.get('VERIF_TLC_XMX') or ('3g' if (env or {}).get('TRACE_FILE') else '6g')), '-cp', JAR]
+    cmd = ['java', '-XX:+UseParallelGC', '-Xss16m', '-Xmx%s' % (os.environ.get('VERIF_TLC_XMX') or ('3g' if (env or {}).get('TRACE_FILE') else ('16g' if coverage else '6g'))), '-cp', JAR]
     cmd += ['tlc2.TLC', '-metadir', meta, '-noGenerateSpecTE']
     if workers is None:
         workers = min(16, os.cpu_count() or 4)
